@@ -341,8 +341,11 @@ class World(object):
 
     def new_cell(self, cid, shape=None):
         rng = self.rng
-        shape = shape or rng.choice(["doc", "doc", "list", "kw", "sco"])
-        if shape == "doc":
+        shape = shape or rng.choice(["doc", "doc", "list", "kw", "sco", "custom"])
+        if shape == "custom":
+            key, doc = make_custom_doc(self, rng)
+            self.cells[cid] = {"shape": "doc", "key": key, "val": doc, "custom_type": True}
+        elif shape == "doc":
             key, doc = make_doc(self, rng, "sdo" if rng.random() < 0.7 else None)
             self.cells[cid] = {"shape": "doc", "key": key, "val": doc}
         elif shape == "sco":
@@ -363,6 +366,54 @@ class World(object):
             cls, kw = make_kw(self, rng)
             self.cells[cid] = {"shape": "kw", "cls": cls, "val": kw}
         return self.cells[cid]
+
+
+_CUSTOM13 = {}
+
+
+def custom13():
+    """registered custom types, two of them declared with an extension of their own (extension_name=...): the library adds that extension to every instance"""
+    if not _CUSTOM13:
+        from stix2.properties import IntegerProperty, ListProperty, StringProperty
+
+        @v21.CustomObject("x-verif-frame", [("name", StringProperty(required=True)), ("tags", ListProperty(StringProperty))],
+                          extension_name="extension-definition--dddddddd-1111-4111-8111-111111111111")
+        class XFrame(object):
+            pass
+
+        @v21.CustomObservable("x-verif-frame-obs", [("value", StringProperty(required=True)), ("n", IntegerProperty())], ["value"],
+                              extension_name="extension-definition--eeeeeeee-1111-4111-8111-111111111111")
+        class XFrameObs(object):
+            pass
+
+        @v21.CustomObject("x-verif-frame-plain", [("name", StringProperty(required=True))])
+        class XFramePlain(object):
+            pass
+
+        @v20.CustomObject("x-verif-frame", [("name", StringProperty(required=True)), ("tags", ListProperty(StringProperty))])
+        class XFrame20(object):
+            pass
+        _CUSTOM13.update(frame=XFrame, obs=XFrameObs, plain=XFramePlain, frame20=XFrame20)
+    return _CUSTOM13
+
+
+def make_custom_doc(w, rng):
+    """a document of a registered custom type whose `extensions` dictionary is the caller's: empty, or holding only extension definitions the library does not know"""
+    custom13()
+    foreign = {"extension-definition--ffffffff-1111-4111-8111-111111111111": {"extension_type": "property-extension", "score": 7}}
+    ext = rng.choice([{}, copy.deepcopy(foreign), dict(copy.deepcopy(foreign), **{"extension-definition--ffffffff-2222-4222-8222-222222222222": {"extension_type": "property-extension", "x": [1]}})])
+    which = rng.choice(["frame", "obs", "plain"]) if w.v == "2.1" else "frame20"
+    if which == "obs":
+        doc = {"type": "x-verif-frame-obs", "value": "v", "n": 1}
+    else:
+        doc = {"type": {"frame": "x-verif-frame", "plain": "x-verif-frame-plain", "frame20": "x-verif-frame"}[which], "name": "n"}
+        if which != "plain":
+            doc["tags"] = ["a", "b"]
+    if w.v == "2.1":
+        doc["spec_version"] = "2.1"
+        if ext or rng.random() < 0.7:
+            doc["extensions"] = ext
+    return ("observables:" if which == "obs" else "objects:") + doc["type"], doc
 
 
 def cls_for(v, doc):
@@ -397,6 +448,10 @@ def construct_ops(w, cell):
         ops.append(("MemorySink.add([dict])", [], lambda: stix2.MemorySink(allow_custom=True).add([c], version=v)))
         ops.append(("canonicalize(dict)", [], lambda: stix2.canonicalization.Canonicalize.canonicalize(c)))
         ops.append(("utils.detect_spec_version(dict)", [], lambda: stix2.utils.detect_spec_version(c)))
+    if cell.get("custom_type") and isinstance(c.get("extensions"), dict) and v == "2.1":
+        shared = c["extensions"]
+        ops.append(("Identity(extensions=the same dictionary) then cls(**dict)", [("extensions", shared)],
+                    lambda: (m.Identity(name="earlier", identity_class="organization", **({"extensions": shared} if shared else {})), cls_for(v, c)(**c))[1]))
     if cell["shape"] == "sco":
         refs = cell["refs"]
         ops.append(("parse_observable(dict, valid_refs)", [("valid_refs", refs)], lambda: stix2.parse_observable(c, refs, allow_custom=False, version=v)))
@@ -882,7 +937,7 @@ def systematic(chk, rec, quick, scratch):
     reps = 3 if quick else 40
     plan = []
     for v in VERSIONS:
-        for shape in ("doc", "sco", "list", "kw"):
+        for shape in ("doc", "sco", "list", "kw", "custom"):
             for r in range(reps):
                 plan.append((v, shape, rng.randint(0, 2 ** 30)))
     index = {}
